@@ -20,8 +20,9 @@ DEEP2 = {'a': 'd', 'a/r': 'd', 'a/r/t': 'f', 'a/lr': ('l', 'r'), 'a/r/up': ('l',
 ACYCLIC = {'a': 'd', 'a/r': 'd', 'a/r/t': 'f', 'a/lr': ('l', 'r'), 'a/sib': 'd', 'a/sib/lt': ('l', '../r/t'), 'a/r/lk': ('l', '../sib'), 'd': 'd', 'd/ls': ('l', '../a/sib'), 'd/y': 'f',
            'a/sib/y': 'f', '.hl': ('l', 'a')}
 ODD = {'x\\y': 'f', 'x': 'd', 'x/y': 'f', 'q\\': 'd', 'q\\/z': 'f', 'y': 'f', 'a*b': 'f', 'a[b]': 'f', 'axb': 'f', '{a,b}': 'f', 'a|b': 'd', 'a|b/!c': 'f', '-n': 'f', '~': 'f', 'x\\': 'd', 'x\\/y': 'f'}
+RELINK = {'d': 'd', 'd/d': ('l', '../d'), 'd/A': 'f', 'd/e': 'd', 'd/e/d': ('l', '..')}      # a link named like its own parent: two ways to read 'd/d/A'
 EMPTY = {}
-NAMED = {'basic': BASIC, 'links': LINKS, 'nested': NESTED, 'case': CASE, 'deep2': DEEP2, 'acyclic': ACYCLIC, 'odd': ODD}
+NAMED = {'basic': BASIC, 'links': LINKS, 'nested': NESTED, 'case': CASE, 'deep2': DEEP2, 'acyclic': ACYCLIC, 'odd': ODD, 'relink': RELINK}
 
 
 def is_cyclic(spec):
